@@ -273,3 +273,85 @@ func hintTerminates(s *big.Int) bool {
 	}
 	return true
 }
+
+// ---- off-curve points: a coordinate changed so that the point satisfies no curve equation
+
+func g16OffCurveEdits(proof groth16.Proof) []cvapi.Edit {
+	var out []cvapi.Edit
+	switch p := proof.(type) {
+	case *g16_377.Proof:
+		cl := func() *g16_377.Proof {
+			q := *p
+			q.Commitments = append([]bls12377.G1Affine{}, p.Commitments...)
+			return &q
+		}
+		q := cl()
+		q.Ar.Y.Add(&q.Ar.Y, &q.Ar.X)
+		out = append(out, cvapi.Edit{Name: "Ar.Y:+=Ar.X(off-curve)", Obj: q, Changed: !q.Ar.IsOnCurve()})
+		q = cl()
+		q.Krs.X.Double(&q.Krs.X)
+		out = append(out, cvapi.Edit{Name: "Krs.X:=double(off-curve)", Obj: q, Changed: !q.Krs.IsOnCurve()})
+		q = cl()
+		q.Bs.Y.A0.Add(&q.Bs.Y.A0, &q.Bs.X.A1)
+		out = append(out, cvapi.Edit{Name: "Bs.Y.A0:+=Bs.X.A1(off-curve)", Obj: q, Changed: !q.Bs.IsOnCurve()})
+	case *g16_bn.Proof:
+		cl := func() *g16_bn.Proof {
+			q := *p
+			q.Commitments = append([]bn254.G1Affine{}, p.Commitments...)
+			return &q
+		}
+		q := cl()
+		q.Ar.Y.Add(&q.Ar.Y, &q.Ar.X)
+		out = append(out, cvapi.Edit{Name: "Ar.Y:+=Ar.X(off-curve)", Obj: q, Changed: !q.Ar.IsOnCurve()})
+		q = cl()
+		q.Krs.X.Double(&q.Krs.X)
+		out = append(out, cvapi.Edit{Name: "Krs.X:=double(off-curve)", Obj: q, Changed: !q.Krs.IsOnCurve()})
+		q = cl()
+		q.Bs.Y.A0.Add(&q.Bs.Y.A0, &q.Bs.X.A1)
+		out = append(out, cvapi.Edit{Name: "Bs.Y.A0:+=Bs.X.A1(off-curve)", Obj: q, Changed: !q.Bs.IsOnCurve()})
+	default:
+		panic(fmt.Sprintf("g16OffCurveEdits: %T", proof))
+	}
+	return out
+}
+
+func plkOffCurveEdits(proof plonk.Proof) []cvapi.Edit {
+	var out []cvapi.Edit
+	switch p := proof.(type) {
+	case *plk_377.Proof:
+		cl := func() *plk_377.Proof {
+			q := *p
+			q.Bsb22Commitments = append([]bls12377.G1Affine{}, p.Bsb22Commitments...)
+			q.BatchedProof.ClaimedValues = append([]fr377.Element{}, p.BatchedProof.ClaimedValues...)
+			return &q
+		}
+		q := cl()
+		q.BatchedProof.H.Y.Add(&q.BatchedProof.H.Y, &q.BatchedProof.H.X)
+		out = append(out, cvapi.Edit{Name: "BatchedProof.H.Y:+=X(off-curve)", Obj: q, Changed: !q.BatchedProof.H.IsOnCurve()})
+		q = cl()
+		q.ZShiftedOpening.H.X.Double(&q.ZShiftedOpening.H.X)
+		out = append(out, cvapi.Edit{Name: "ZShiftedOpening.H.X:=double(off-curve)", Obj: q, Changed: !q.ZShiftedOpening.H.IsOnCurve()})
+		q = cl()
+		q.Z.Y.Add(&q.Z.Y, &q.Z.X)
+		out = append(out, cvapi.Edit{Name: "Z.Y:+=X(off-curve)", Obj: q, Changed: !q.Z.IsOnCurve()})
+	case *plk_bn.Proof:
+		cl := func() *plk_bn.Proof {
+			q := *p
+			q.Bsb22Commitments = append([]bn254.G1Affine{}, p.Bsb22Commitments...)
+			q.BatchedProof.ClaimedValues = append([]frbn.Element{}, p.BatchedProof.ClaimedValues...)
+			return &q
+		}
+		q := cl()
+		q.BatchedProof.H.Y.Add(&q.BatchedProof.H.Y, &q.BatchedProof.H.X)
+		out = append(out, cvapi.Edit{Name: "BatchedProof.H.Y:+=X(off-curve)", Obj: q, Changed: !q.BatchedProof.H.IsOnCurve()})
+		q = cl()
+		q.ZShiftedOpening.H.X.Double(&q.ZShiftedOpening.H.X)
+		out = append(out, cvapi.Edit{Name: "ZShiftedOpening.H.X:=double(off-curve)", Obj: q, Changed: !q.ZShiftedOpening.H.IsOnCurve()})
+		q = cl()
+		q.Z.Y.Add(&q.Z.Y, &q.Z.X)
+		out = append(out, cvapi.Edit{Name: "Z.Y:+=X(off-curve)", Obj: q, Changed: !q.Z.IsOnCurve()})
+	default:
+		panic(fmt.Sprintf("plkOffCurveEdits: %T", proof))
+	}
+	return out
+}
